@@ -62,3 +62,49 @@ def scan(p):
                                                            if isinstance(combo, (list, tuple)) else combo, mode, r))
     _CACHE[id(p)] = (nshapes, bad_scan)
     return nshapes, bad_scan
+
+
+def count_cases(p, limit, thorough=False):
+    """The label-count limit on concrete counts: k label definitions (label lines and .EQU lines alternating) are accepted
+    up to the limit and rejected beyond it - also for counts that a narrow counter would wrap (256 + k).
+    -> (cases, disagreeing cases)"""
+    vb = p.need_body(PI + "validate_lines")
+    am = asmmodel.AsmModel(p)
+    lvi = am.vi["Line"]
+    equ = None
+    for vname, combo, value in am.instructions():
+        if vname == "AsmEquals":
+            equ = value
+            break
+    t = p.need_type("L::parser::implementation::error::ParserError")
+    too_many = [i for i, v in enumerate(t["variants"]) if v["n"] == "TooManyLabels"]
+    if not too_many or equ is None:
+        from .facts import AnchorMissing
+        raise AnchorMissing("ParserError::TooManyLabels / Instruction::AsmEquals")
+    ivi = list(equ.vs)[0]
+    counts = [0, 1, limit - 1, limit, limit + 1, limit + 2, 2 * limit, 255, 256, 257, 256 + limit, 256 + limit + 1] + ([512, 513, 65536 + limit] if thorough else [])
+    bad = []
+    for k in counts:
+        for mix in ("labels", "mixed"):
+            I = absint.Interp(p)
+            I.unroll = k + 8
+            st = absint.State()
+            lines = []
+            for j in range(k):
+                if mix == "mixed" and j % 2:
+                    pl = list(equ.vs[ivi])
+                    pl[0] = Opaque("L%d" % j)
+                    lines.append(En({lvi["Instruction"]: (En({ivi: tuple(pl)}), En({0: ()}))}))
+                else:
+                    lines.append(En({lvi["Label"]: (Opaque("L%d" % j), En({0: ()}))}))
+            la = I.new_alloc(st, "lines", Arr(lines))
+            r = I.run_body(vb, [Ref(la, (), False)], st, 0)
+            evs = [e for e in I.events if e.kind in ("unknown_extern", "havoc", "wild_write", "unknown_call_value")]
+            if k <= limit:
+                okr = isinstance(r, En) and set(r.vs) == {0}
+            else:
+                okr = (isinstance(r, En) and set(r.vs) == {1} and isinstance(r.vs[1][0], En)
+                       and set(r.vs[1][0].vs) == set(too_many))
+            if not okr or evs:
+                bad.append("%d definitions (%s): %r %s" % (k, mix, r, [repr(e)[:80] for e in evs[:1]]))
+    return 2 * len(counts), bad
